@@ -56,6 +56,19 @@ CLAIMED = {
          'parity from every generated control block. Curve facts enter as explicit hypotheses (lift_x of the key, tweak < n). Model tied to the '
          'code by the correspondence run.', NOTE_COMMON + 'SHA-256 parameter; lift_x(internal key) and tweak < n are hypotheses of the curve-dependent theorems.',
          'Lean 4 proof (hand model) + differential correspondence', '6/C08'),
+ 'C07': ('Kernel-checked theorems: under the explicit group-law hypothesis CurveLaws, for every secret in [1,n-1], every tweak and both parities of '
+         'the internal and of the tweaked key, the secret derived by tweak_taproot_privkey is the discrete log of the point whose x coordinate the '
+         'address commits to; a key-path signature verifies (BIP340) under exactly that output key, a script-path signature under the x-only '
+         'internal key; 64/65-byte length rule. Model tied to the code by the correspondence run, in which every implementation signature is also '
+         'verified by the Spec verifier under the Spec BIP341 digest.',
+         NOTE_COMMON + 'CurveLaws (group law on multiples of G, lift_x) is a hypothesis of the key-path theorems, not proved; SHA-256 parameter.',
+         'Lean 4 proof (hand model, CurveLaws hypothesis) + differential correspondence', '6/C07'),
+ 'C20': ('Kernel-checked theorems: generated RIPEMD-160 tables and curve constants equal the specification\'s; the hand model of ripemd160.py '
+         'equals Merkle-Damgard padding + fold of the specification\'s compression function for messages of every length; tagged hash definition; '
+         'schnorr_verify equals BIP340 verification on all inputs (length, range and off-curve rejection), schnorr_sign returns exactly the BIP340 '
+         'signature, which verifies; under CurveLaws signing never fails. Model tied to the code by the correspondence run (libsecp256k1 as cross-oracle).',
+         NOTE_COMMON + 'RIPEMD-160 modelled over 32-bit words (masking abstraction covered by correspondence); CurveLaws hypothesis in sign_never_fails only.',
+         'Lean 4 proof (hand model + generated tables) + differential correspondence', '6/C20'),
 }
 REASONS_PENDING = 'check under construction in this session (DESIGN.md section 9 build order); will be claimed once its Lean theorems are proved and its correspondence run exists'
 
